@@ -93,6 +93,9 @@ protected:
    virtual io_status_t DoOutputImplementation(uint32 maxBytes = MUSCLE_NO_LIMIT);
 
 private:
+#ifdef MUSCLE_VERIF_HOOKS
+   friend class MuscleVerifAccess;  // lets a verification harness set the send-id counter near wrap-around
+#endif
    const uint32 _magic;                 // our magic number, used to sanity check packets
    const uint32 _maxTransferUnit;       // max number of bytes to try to fit in a packet
 
